@@ -137,6 +137,15 @@ def c05(tier, replay):
     res = vcommon.validate_shards("TraceRules", "TraceRules.cfg", sorted(glob.glob(os.path.join(d, "rules*.ndjson"))))
     R.judge(run, "C05", res)
     shutil.rmtree(d, ignore_errors=True)
+    # pairs: single-component perturbations must change the key, transposed move orders must not
+    d = R.trace_dir("C05-pairs")
+    ksum = vcommon.run_harness(h, ["keypairs", "--out", d, "--shards", vcommon.NCPU, "--seed", vcommon.seed(), "--playouts", 40 if tier == "quick" else 400, "--plies", 20])
+    res = vcommon.validate_shards("TraceRules", "TraceRules.cfg", sorted(glob.glob(os.path.join(d, "rules*.ndjson"))))
+    kt = R.judge(run, "C05", res)
+    shutil.rmtree(d, ignore_errors=True)
+    R.need(kt, ["keypairs", "transpositions"])
+    run.cov["key_pairs"] = {"perturbation_pairs": ksum["perturbations"], "transposition_candidates": ksum["transposition_candidates"],
+                            "true_transpositions": kt.get("transpositions", 0)}
     model_game(run, tier)
     run.assumptions.append("XOR of 64-bit constants is abstracted as symmetric difference of feature sets; sound because the audit "
                            "shows the 781 constants distinct and non-zero (residues are resolved up to three features)")
